@@ -87,7 +87,7 @@ def element_state(net):
             p = n.params
             d.update(length=p.length, att_in=p.att_in, con_in=p.con_in, con_out=p.con_out, pmd_coef=p.pmd_coef,
                      loss_coef=np.round(np.atleast_1d(p.loss_coef), 12).tolist(), lumped=[(l['position'], l['loss']) for l in p.lumped_losses],
-                     loss=n.loss)
+                     loss=n.loss, dispersion=np.round(np.atleast_1d(p.dispersion), 15).tolist(), effective_area=p._effective_area)
         if isinstance(n, Edfa):
             d.update(variety=n.params.type_variety, gain=n.effective_gain, delta_p=n.delta_p, out_voa=n.out_voa, in_voa=n.in_voa, tilt=n.tilt_target)
         if isinstance(n, Roadm):
@@ -142,6 +142,9 @@ def run(topo, eq, key, rounds=2):
                            for x in d):
                 # known finding F12: the end-of-life margin is added to con_out again on every reload + redesign
                 wit.append({'key': 'eol-margin-added-again-on-reload', 'problems': d[:5]})
+            elif d and all(x.startswith('element objects: ') and ('.dispersion:' in x or '.effective_area:' in x) for x in d):
+                # known finding F51: Fiber.to_json exports no element-level dispersion / effective area / gamma
+                wit.append({'key': 'element-level-fibre-parameters-not-exported', 'problems': d[:5]})
             else:
                 wit.append({'key': f'{key}:round{r + 1}', 'problems': d[:5]})
             break
@@ -169,7 +172,8 @@ for name in names:
         topo = mesh(sites, links, spans={l: sp for l in links}, junction=junction)
         run(topo, eq, f'{name}:{sp}:{junction}:{"gain" if gain_mode else "power"}:{"voa_auto" if voa_auto else "stock"}')
 # user settings mixed with missing ones; per-degree targets; delta_p range
-for variant in ('per_degree', 'per_degree_psw', 'lumped', 'user_gain', 'user_delta_p', 'raman', 'delta_power_range', 'eol'):
+for variant in ('per_degree', 'per_degree_psw', 'lumped', 'user_gain', 'user_delta_p', 'raman', 'delta_power_range', 'eol', 'fibre_overrides',
+                'design_band', 'multiband_in_voa'):
     eq = equipment()
     sites, links = TOPOLOGIES['ring3']
     rp = {'A': {'per_degree_pch_out_db': {'east edfa in roadm A to roadm B': -17.5}}} if variant == 'per_degree' else None
@@ -183,6 +187,25 @@ for variant in ('per_degree', 'per_degree_psw', 'lumped', 'user_gain', 'user_del
             if e['uid'] == 'roadm A':
                 e['params'] = {'target_psd_out_mWperGHz': 2.5e-4, 'per_degree_psd_out_mWperSlotWidth': {'fiber (A -> B)-0': 1.8e-4},
                                'per_degree_psd_out_mWperGHz': {'fiber (A -> C)-0': 3.0e-4}}
+    if variant == 'fibre_overrides':
+        # a fibre element that overrides the dispersion and effective area of its library type (known finding F51: not exported)
+        for e in topo['elements']:
+            if e['uid'] == 'fiber (A -> B)-1':
+                e['params'].update({'dispersion': 4e-6, 'effective_area': 50e-12})
+    if variant == 'design_band':
+        for e in topo['elements']:
+            if e['type'] == 'Roadm':
+                e['params'] = {'design_bands': [{'f_min': 192.0e12, 'f_max': 195.0e12, 'spacing': 50e9}]}
+    if variant == 'multiband_in_voa':
+        CL_ = [{'f_min': 191.3e12, 'f_max': 196.0e12, 'spacing': 50e9}, {'f_min': 186.6e12, 'f_max': 190.0e12, 'spacing': 50e9}]
+        eq = equipment('eqpt_config_multiband.json')
+        topo = mesh(sites, links, spans={l: [70] for l in links}, roadm_params={x: {'design_bands': CL_} for x in sites})
+        first = design(deepcopy(topo), deepcopy(eq))[0]
+        topo = network_to_json(first)
+        for e in topo['elements']:
+            if e['type'] == 'Multiband_amplifier' and 'preamp' in e['uid']:
+                for amp_ in e['amplifiers']:
+                    amp_['operational'] = {'gain_target': None, 'delta_p': None, 'tilt_target': None, 'out_voa': None, 'in_voa': 2.0}
     if variant == 'lumped':
         for e in topo['elements']:
             if e['uid'] == 'fiber (A -> B)-1':
